@@ -140,6 +140,12 @@ void mon_call_ret(proc *pr, int64_t ret);
 void mon_reset(void);
 void pend_viol(const char *prop, const char *sig, const char *fmt, ...) __attribute__((format(printf,3,4)));
 
+/* recording of blocking-call windows for the single-fault sweep */
+typedef struct { int pid, stepk, op; double t0, t1; int64_t prio; } callrec;
+#define MAXCALLREC 200
+#define MAXEVT 2048
+extern bool g_rec_on; extern callrec g_rec[MAXCALLREC]; extern int g_nrec; extern double g_evt[MAXEVT]; extern int g_nevt;
+
 /* procs_gen.c */
 void procs_gen(plan *p, uint64_t seed, const char *cfg);
 
